@@ -105,7 +105,7 @@ fn pos() -> impl Strategy<Value = u32> {
 
 fn net_cfg(profile: Profile) -> BoxedStrategy<NetCfg> {
     let lat = || prop_oneof![Just(0u32), Just(1_000), Just(10_000), Just(10_000), Just(50_000), Just(200_000)];
-    let base = (lat(), lat(), prop_oneof![Just(1200u16), Just(1350), Just(1500), Just(1500)], prop_oneof![Just(1u8), Just(4), Just(64), Just(64)]);
+    let base = (lat(), lat(), prop_oneof![Just(1200u16), Just(1350), Just(1500), 1200u16..=1500], prop_oneof![Just(1u8), Just(4), Just(64), Just(64)]);
     match profile {
         Profile::Clean => base
             .prop_map(|(a, b, mss, segs)| NetCfg { lat_c2s_us: a, lat_s2c_us: b, mss, max_segments: segs, ..Default::default() })
